@@ -27,6 +27,9 @@ type Config struct {
 	MaxSteps     int
 	StopAtFirst  bool
 	MaxViolations int
+	// SigFilter, if set, keeps only the oracle failures whose signature it accepts
+	// (one harness body may carry the oracles of several properties).
+	SigFilter func(sig string) bool
 }
 
 // Violation is one failed execution.
@@ -60,6 +63,7 @@ type Result struct {
 // Ctx is handed to the harness body for reporting.
 type Ctx struct {
 	fails   []string
+	sigs    []string
 	sig     string
 	outcome string
 	Replay  bool // true when replaying with traces on
@@ -69,6 +73,7 @@ type Ctx struct {
 // (used to match known findings).
 func (c *Ctx) Failf(sig, format string, args ...interface{}) {
 	c.fails = append(c.fails, fmt.Sprintf(format, args...))
+	c.sigs = append(c.sigs, sig)
 	if c.sig == "" {
 		c.sig = sig
 	}
@@ -248,7 +253,25 @@ func Explore(cfg Config, body Body) *Result {
 	return res
 }
 
+func (c *Ctx) filter(f func(string) bool) {
+	if f == nil {
+		return
+	}
+	var fs, ss []string
+	for i, s := range c.sigs {
+		if f(s) {
+			fs = append(fs, c.fails[i])
+			ss = append(ss, s)
+		}
+	}
+	c.fails, c.sigs, c.sig = fs, ss, ""
+	if len(ss) > 0 {
+		c.sig = ss[0]
+	}
+}
+
 func judge(res *Result, cfg *Config, body Body, x *vsched.Exec, c *Ctx) {
+	c.filter(cfg.SigFilter)
 	out := c.outcome
 	fail := ""
 	sig := c.sig
@@ -290,6 +313,8 @@ func judge(res *Result, cfg *Config, body Body, x *vsched.Exec, c *Ctx) {
 	// replay twice with traces on and require identical observations
 	x2, c2 := runOnce(cfg, body, choices, true, nil)
 	x3, c3 := runOnce(cfg, body, choices, true, nil)
+	c2.filter(cfg.SigFilter)
+	c3.filter(cfg.SigFilter)
 	same := func(y *vsched.Exec, cy *Ctx) bool {
 		if y.Diverged != "" {
 			return false
@@ -308,6 +333,14 @@ func judge(res *Result, cfg *Config, body Body, x *vsched.Exec, c *Ctx) {
 		return
 	}
 	res.Violations = append(res.Violations, Violation{Choices: choices, Msg: fail, Sig: sig, Trace: compactTrace(x2.Trace, 400)})
+	// further, different failures of the same execution are reported as well
+	seenSig := map[string]bool{sig: true}
+	for i, s2 := range c.sigs {
+		if !seenSig[s2] && x.PanicVal == nil && x.Deadlock == "" && !x.Horizon {
+			seenSig[s2] = true
+			res.Violations = append(res.Violations, Violation{Choices: choices, Msg: c.fails[i], Sig: s2, Trace: compactTrace(x2.Trace, 400)})
+		}
+	}
 }
 
 func compactTrace(t []string, max int) []string {
